@@ -48,6 +48,7 @@ def build_flux(rng, kind, enc, spt, tracks, images, res, tight=None):
     per_side = []
     jitter = rng.random() < 0.5 or bool(tight)
     oplog_total = 0
+    trailing_skip = kind == 'hfe3' and rng.random() < 0.5
     for sd, img in enumerate(images):
         trs = []
         for t in range(tracks):
@@ -78,11 +79,19 @@ def build_flux(rng, kind, enc, spt, tracks, images, res, tight=None):
                 oplog_total += len(log)
                 for (_, name, arg) in log:
                     res.seen('v3_opcodes', name if name != 'SKIPBITS' else 'SKIPBITS%d' % arg)
+                if trailing_skip:
+                    # a lone SKIPBITS after the last sector of the track: the cells that follow it are only gap
+                    # filler, and whatever part of a byte is left over at the end of a track belongs to that track
+                    k = rng.choice([1, 3, 5, 7, 2, 4])
+                    fill = 0x11 if enc == 'fm' else 0x55
+                    raw = raw + bytes([flux.rev8(flux.OP_SKIPBITS), flux.rev8(k)] + [fill] * rng.choice([1, 2, 5]))
+                    res.seen('v3_opcodes', 'SKIPBITS%d-at-end-of-track' % k)
             lst.append(raw)
         packed.append(lst)
     exact = rng.random() < 0.5 or bool(tight)
     desc['lut_exact_length'] = exact
     desc['v3_opcodes_inserted'] = oplog_total
+    desc['v3_lone_skipbits_at_end_of_every_track'] = trailing_skip
     desc['last_block_padded'] = rng.random() < 0.6
     return flux.hfe_file(packed[0], packed[1] if sides == 2 else None, 2 if enc == 'fm' else 0,
                          1 if kind == 'hfe1' else 3, lut_exact=exact, pad_last=desc['last_block_padded']), desc
